@@ -34,6 +34,7 @@ import (
 	"verifh/ev"
 	"verifh/kit"
 	"verifh/xa"
+	"verifh/xstate"
 )
 
 const (
@@ -655,9 +656,145 @@ func acrossFlaps(c *ev.Check) {
 }
 
 
+// acrossSteps: requests in flight across EVERY single step of the alphabet, not only readiness flaps: the server
+// grants q, as many requests as are admitted keep running, one step happens (any answer, failure, readiness or shard
+// change, spec edit - and, allocate strategy, an answer whose strategy field differs from the schema's), then as many
+// more as are admitted: everything in flight at once stays within the global limit configured at that moment.
+func acrossSteps(c *ev.Check) {
+	for _, strategy := range []proxyv1alpha1.LimitStrategy{proxyv1alpha1.GlobalAllocateLimit, proxyv1alpha1.GlobalCountLimit} {
+		steps := allocateSteps("mif")
+		if strategy == proxyv1alpha1.GlobalCountLimit {
+			steps = countSteps("mif")
+		} else {
+			for _, other := range []proxyv1alpha1.LimitStrategy{"", proxyv1alpha1.GlobalCountLimit} {
+				other := other
+				steps = append(steps, step{name: fmt.Sprintf("answer quota=5 with strategy field %q", other), do: func(w *world) {
+					w.stub.reply = func(cd *proxyv1alpha1.RateLimitCondition) (*proxyv1alpha1.RateLimitCondition, error) {
+						cd.Spec.LimitItemConfigurations = []proxyv1alpha1.RateLimitItemConfiguration{{Name: "s", Strategy: other,
+							LimitItemDetail: proxyv1alpha1.LimitItemDetail{MaxRequestsInflight: &proxyv1alpha1.MaxRequestsInflightFlowControlSchema{Max: 5}}}}
+						return cd, nil
+					}
+					remote.VerifReconcileOnce(flowcontrols.VerifReconcile(w.lim))
+				}})
+			}
+		}
+		steps = append(steps, specSteps()...)
+		for _, q := range []int32{globalMax, 2} {
+			grantName := fmt.Sprintf("answer quota=%d", q)
+			if strategy == proxyv1alpha1.GlobalCountLimit {
+				grantName = fmt.Sprintf("acquire answer accept=true limit=%d", q)
+			}
+			for _, st := range steps {
+				if st.name == "server not ready" {
+					continue // exactly acrossFlaps' remote-then-local scenario
+				}
+				w := newWorld("mif", strategy)
+				for _, g := range steps {
+					if g.name == grantName {
+						g.do(w)
+					}
+				}
+				var held []flowcontrol.FlowControl
+				hold := func() int {
+					n := 0
+					for i := 0; i < globalMax+2; i++ {
+						fc := w.lim.GetOrDefault("s")
+						if !fc.TryAcquire() {
+							break
+						}
+						held = append(held, fc)
+						n++
+					}
+					return n
+				}
+				first := hold()
+				if p := kit.Try(func() { st.do(w) }); p != "" {
+					c.Violation(fmt.Sprintf("mif-%s/in-flight-across-step/panic", strategy), fmt.Sprintf("grant %d, %d in flight, then [%s]: the gateway-side limiter panicked: %s", q, first, st.name, first2(p)), nil)
+				}
+				second := hold()
+				c.Add("across_step_scenarios", 1)
+				c.Outcome("probe_outcomes", fmt.Sprintf("across-step/%s/%d/%s/%d+%d", strategy, q, st.name, first, second))
+				limit := w.gMax
+				if st.spec && limit < first {
+					limit = first // lowered below what is already running: nothing more may be admitted
+				}
+				if first+second > limit {
+					key := fmt.Sprintf("mif-%s/in-flight-across-step-exceeds-global-limit/%s/grant=%d", strategy, st.name, q)
+					c.Violation(key, fmt.Sprintf("mif/%s: server grants %d; %d requests admitted and still running; then [%s]; %d more requests admitted: %d in flight at once, the global limit is %d", strategy, q, first, st.name, second, first+second, w.gMax),
+						map[string]interface{}{"strategy": string(strategy), "step": st.name, "grant": q})
+				}
+				for _, h := range held {
+					h.Release()
+				}
+				w.close()
+			}
+		}
+	}
+}
+
+func first2(s string) string { return first(s) }
+
 // ------------------------------------------------------------------ boundary configurations
 // "every schema configuration with local <= global limits": the step sequences run on local 2 / global 5. Here the
 // limits sit on their boundaries - 0/0, 0/5, 1/1, 5/5 - and the same upper bounds are read after a few telling steps.
+
+// lowBurstTokenBucket: a token-bucket schema whose burst is SMALLER than its rate (validation allows it; the step
+// sequences above use burst >= qps throughout). Global 8/s burst 4, local 2/s burst 2. Every sequence of length 3
+// over all steps of the strategy; after every step the bucket in force, read off the limiter's own description,
+// stays within the configured global rate and burst.
+var tbInForce = regexp.MustCompile(`qps=(\d+),burst=(\d+)`)
+
+func lowBurstTokenBucket(c *ev.Check) {
+	const gq, gb = 8, 4
+	for _, strategy := range []proxyv1alpha1.LimitStrategy{proxyv1alpha1.GlobalAllocateLimit, proxyv1alpha1.GlobalCountLimit} {
+		steps := allocateSteps("tb")
+		if strategy == proxyv1alpha1.GlobalCountLimit {
+			steps = countSteps("tb")
+		}
+		var idx []int
+		var rec func()
+		rec = func() {
+			if len(idx) == 3 {
+				w := newWorld("tb", strategy)
+				w.gQPS, w.gBurst = gq, gb
+				w.syncSpec()
+				var hist []string
+				for _, k := range idx {
+					hist = append(hist, steps[k].name)
+					if p := kit.Try(func() { steps[k].do(w) }); p != "" {
+						c.Violation(fmt.Sprintf("tb-%s/low-burst/panic", strategy), fmt.Sprintf("global %d/s burst %d, %v: the gateway-side limiter panicked: %s", gq, gb, hist, first(p)), nil)
+						break
+					}
+					c.Add("low_burst_probes", 1)
+					m := tbInForce.FindStringSubmatch(w.lim.GetOrDefault("s").String())
+					if m == nil {
+						c.EngineError("low-burst: cannot read the bucket in force from " + w.lim.GetOrDefault("s").String())
+						break
+					}
+					q, _ := strconv.Atoi(m[1])
+					b, _ := strconv.Atoi(m[2])
+					c.Outcome("probe_outcomes", fmt.Sprintf("low-burst/%s/%d/%d", strategy, q, b))
+					if q > gq || b > gb {
+						c.Violation(fmt.Sprintf("tb-%s/low-burst/exceeds-global-bucket", strategy), fmt.Sprintf("token-bucket schema with global rate %d/s and global burst %d (local 2/2), after %v: the bucket in force is %d/s burst %d", gq, gb, hist, q, b),
+							map[string]interface{}{"strategy": string(strategy), "steps": hist})
+						break
+					}
+				}
+				w.close()
+				return
+			}
+			for k := range steps {
+				if steps[k].spec {
+					continue
+				}
+				idx = append(idx, k)
+				rec()
+				idx = idx[:len(idx)-1]
+			}
+		}
+		rec()
+	}
+}
 
 func boundaryConfigs(c *ev.Check) {
 	type cfgLG struct{ local, global int32 }
@@ -787,10 +924,13 @@ func main() {
 		"every prefix of a sequence is probed; a probe acquires until refused (max-in-flight) or on a refilled bucket at a frozen clock and over the next second (token bucket); what a failing but still 'ready' server leaves in force is only bounded from above (global) - the local fallback is demanded when the server is not ready or unknown",
 	}
 	if c.ReplayFile() != "" {
+		xstate.ReplayIfAsked(c, []xstate.Spec{specWire(c, "mif"), specWire(c, "tb")})
 		xa.ReplayIfAsked(c, []xa.Harness{harnessFirstAnswer(c, 0)})
 	}
 	L := c.Pick(3, 4)
 	var tasks []ev.Task
+	tasks = append(tasks, xstate.Tasks(c, specWire(c, "mif"), c.Pick(4, 5), 12)...)
+	tasks = append(tasks, xstate.Tasks(c, specWire(c, "tb"), c.Pick(4, 5), 6)...)
 	for _, typ := range []string{"mif", "tb"} {
 		for _, strategy := range []proxyv1alpha1.LimitStrategy{proxyv1alpha1.GlobalAllocateLimit, proxyv1alpha1.GlobalCountLimit} {
 			n := len(allocateSteps(typ))
@@ -821,6 +961,8 @@ func main() {
 	tasks = append(tasks, ev.Task{Name: "real-loops-silent-server", Run: func() { silentServer(c) }})
 	tasks = append(tasks, ev.Task{Name: "in-flight-across-flaps", Run: func() { acrossFlaps(c) }})
 	tasks = append(tasks, ev.Task{Name: "boundary-configs", Run: func() { boundaryConfigs(c) }})
+	tasks = append(tasks, ev.Task{Name: "low-burst-token-bucket", Run: func() { lowBurstTokenBucket(c) }})
+	tasks = append(tasks, ev.Task{Name: "in-flight-across-steps", Run: func() { acrossSteps(c) }})
 	c.RunTasks(tasks)
 	c.Finish(map[string]interface{}{
 		"evaluations":         c.Counter("probes") + c.Counter("schedules"),
